@@ -506,6 +506,41 @@ def run(prog, tier) -> Result:
                 cr.run("R11.9", GET, f"look-ups, then an update of {second} (validity {kind}), then {pair[0]}->{pair[1]} again",
                        lookup_between_setup(kind, pair, second), judge_rate)
 
+    # the default date is asked for at every look-up: two look-ups without a date, between which the configured
+    # callable starts to answer a date of the next period, get the rates of their own periods
+    def dflt_moves_setup(kind, pair, call):
+        def setup(c):
+            s = Scenario(c, prog)
+            v1, p1 = s.validity(kind, "p")
+            s.update(v1, p1, ["ca", "cb"])
+            v2, p2 = s.shifted(kind, "q", "p", "next")
+            s.update(v2, p2, ["ca", "cb"])
+            s.dflt_date[0] = s.date_in(p1, tag="d1")
+            fn = CALL if call else GET
+            args1 = ([s.conv, c.qty("money0", s.cur[pair[0]]), s.cur[pair[1]]] if call
+                     else [s.conv, s.cur[pair[0]], s.cur[pair[1]]])
+            with frame(s.I, prog):
+                try:
+                    s.I.call_function(fn, args1, {})
+                except AbsRaise:
+                    raise Infeasible        # (the first answer itself is R11.6's subject above)
+            s.eff = s.date_in(p2, tag="d2")
+            s.dflt_date[0] = s.eff
+            s.want_pair = pair
+            s.explicit_date = False
+            s.dflt_calls.clear()
+            if call:
+                s.money = c.qty("money", s.cur[pair[0]])
+                return [s.conv, s.money, s.cur[pair[1]]], {}
+            return [s.conv, s.cur[pair[0]], s.cur[pair[1]]], {}
+        return setup
+    for kind in ("year", "month", "date"):
+        for pair in (("base", "ca"), ("ca", "cb")) if kind != "year" else (("base", "ca"), ("ca", "base"), ("ca", "cb")):
+            cr.run("R11.6", GET, f"two look-ups without date, the configured date moves to the next period (validity {kind}), "
+                   f"{pair[0]}->{pair[1]}", dflt_moves_setup(kind, pair, False), judge_rate)
+    cr.run("R11.6", CALL, "two calls without date, the configured date moves to the next period (validity year)",
+           dflt_moves_setup("year", ("base", "ca"), True), judge_amount)
+
     # ------------------------------------------------------------------ thorough tier: longer histories, every pair everywhere
     if tier == "thorough":
         def three_setup(kind, read, pair):
@@ -670,7 +705,7 @@ def run(prog, tier) -> Result:
     res.require("R11.3", 32)
     res.require("R11.4", 20)
     res.require("R11.5", 38)
-    res.require("R11.6", 9)
+    res.require("R11.6", 17)
     res.require("R11.7", 10)
     res.require("R11.9", 24)
     return res
